@@ -110,6 +110,9 @@ def hstepLine (st : HState) (line : String) : Option (HState × String) :=
     let st' := hstep st op
     pure (st', ans (showSet (some st'.b.tagsEnabled)) (showSet (some st'.b.tagsEnabled)) true)
   | ["hopt"] => pure (hstep st .optimize, ans "ok" "ok" true)
+  | ["hload", tags] => do
+    let tags ← unhexList tags
+    pure (hstep st (.loadFresh tags), ans "ok" "ok" true)
   | ["hreload"] => pure (hstep st .reload, ans "ok" "ok" true)
   | ["hadd", r] => do
     let r ← parseRule r
